@@ -10,6 +10,7 @@
      merge  : merge_Rvectors of 2-3 lists: merged list and maps
      exz    : exclude_zeros: lists and tensors before / after
      idx    : iR, iR0, index_R
+     nocen  : from_sparse without centres (num_wann given or derived)
    Clauses named info_* compare with the transcription of today's code (order of lists, exception classes); the harness
    reports them as information.  The other clauses are representation-free laws. *)
 EXTENDS SysOrder, Json, IOUtils, TLCExt
@@ -53,7 +54,7 @@ PairsClauses ==
         pauli |-> PauliAlgebra(SpinAt0(a), a.nw, pr),
         only_r0 |-> SSOnlyAtR0(a),
         others_untouched |-> IF Rec.method = "double"
-                             THEN a.nw = 2 * b.nw /\ a.cen = RvDoubleSpin(b.cen) /\ ShiftsFollow(b) => ShiftsFollow(a)
+                             THEN a.nw = 2 * b.nw /\ a.cen = RvDoubleSpin(b.cen) /\ (ShiftsFollow(b) => ShiftsFollow(a))
                                   /\ \A k \in Keys(b) : a.mats[k] = DoubleTensor(b.mats[k], b.nw)
                              ELSE a.nw = b.nw /\ a.cen = b.cen /\ a.sl = b.sl /\ a.sr = b.sr /\ \A k \in Keys(b) \ {"SS"} : a.mats[k] = b.mats[k],
         info_equals_spec |-> exp.err = "" /\ a = exp.sys ]
@@ -67,10 +68,8 @@ EigenClauses ==
                                           Rec.ss[a][b][c] = IF a = b THEN <<Rec.spins[a] * Rec.axis[c], 0>> ELSE GZ,
      only_r0 |-> Rec.err = "" => Rec.rest_zero,
      info_exception_class |-> Rec.err \in {"", "RuntimeError"} ]
-MvOf == [k \in {Rec.mv[n][1] : n \in 1..Len(Rec.mv)} |-> (CHOOSE n \in 1..Len(Rec.mv) : Rec.mv[n][1] = k) \* (one entry per key)
-                                                           \* threshold
-          ]
-MvT2 == [k \in DOMAIN MvOf |-> Rec.mv[MvOf[k]][2]]
+MvIdx(k) == CHOOSE n \in 1..Len(Rec.mv) : Rec.mv[n][1] = k
+MvT2 == [k \in {Rec.mv[n][1] : n \in 1..Len(Rec.mv)} |-> Rec.mv[MvIdx(k)][2]]        \* Rec.mv = [[key, T2], ..]
 (* the recorded dictionary of one key as a function <<R, a, b>> -> components; Rec.sparse = [[key, [[R, a, b, comps], ..]], ..] *)
 SparseList(k) == Rec.sparse[CHOOSE n \in 1..Len(Rec.sparse) : Rec.sparse[n][1] = k][2]
 SparseClauses ==
@@ -126,6 +125,11 @@ IdxClauses ==
      index |-> /\ {Rec.index[n][1] : n \in 1..Len(Rec.index)} = SetOf(rv) /\ Len(Rec.index) = Len(rv)
                /\ \A n \in 1..Len(Rec.index) : rv[Rec.index[n][2] + 1] = Rec.index[n][1],
      info_exception_class |-> \A n \in 1..Len(Rec.queries) : Rec.answers[n].err \in {"", "ValueError"} ]
+(* from_sparse without centres: num_wann given (Rec.given > 0) or derived from the largest index; centres are zero *)
+NocenClauses ==
+   [ no_failure |-> Rec.err = "",
+     num_wann |-> Rec.err = "" => Rec.nw = (IF Rec.given = 0 THEN Rec.maxidx + 1 ELSE Rec.given),
+     centres_zero |-> Rec.err = "" => Rec.cen_zero ]
 Clauses == CASE Rec.kind = "order" -> OrderClauses
              [] Rec.kind = "pairs" -> PairsClauses
              [] Rec.kind = "eigen" -> EigenClauses
@@ -134,6 +138,7 @@ Clauses == CASE Rec.kind = "order" -> OrderClauses
              [] Rec.kind = "merge" -> MergeClauses
              [] Rec.kind = "exz" -> ExzClauses
              [] Rec.kind = "idx" -> IdxClauses
+             [] Rec.kind = "nocen" -> NocenClauses
 Report == \A n \in DOMAIN Clauses : Clauses[n] \/ PrintT(<<"BAD", i, n>>)
 RecInit == i \in 1..Len(Recs)
 RecSpec == RecInit /\ [][UNCHANGED i]_i
